@@ -185,6 +185,10 @@ def c10(ctx, H):
         ctx.count(('replay', 'reply'))
         if outcome != 'ok' or secs > 1.5 or exc:
             ctx.violation(sig, f'{outcome} {detail} {exc}', replay=rp)
+    elif rp['kind'] == 'scan':
+        from checks import c10 as C10
+        C10.scan_cases(ctx, True, only=(rp['func'], rp['i1'], rp['i2'],
+                                        rp['end']))
     elif rp['kind'] == 'keylist':
         from harness.drivers import countloops as CL0
         (outcome, detail, secs), exc = CL0.hostkeys_tail(rp['p'], rp['avail'])
